@@ -23,278 +23,86 @@
 (*                           servers outside its model                        *)
 (*   "drop_no_withdraw"      reload_server drops a deleted server without     *)
 (*                           withdrawing what it published under it          *)
-EXTENDS Naturals, Sequences, FiniteSets, TLC
+EXTENDS MasterLagOps
 
-CONSTANTS Srv, App, SrvSeq, AppSeq, Cap, MaxEvents, MaxCycles, Defects, StartupRace
+CONSTANTS MaxEvents, MaxCycles, StartupRace
 
-VARIABLES store,  \* [pl: [Srv -> SUBSET App], rec: [Srv -> {"no","bare","data"}],
-                  \*  pres: SUBSET Srv, sched: SUBSET App]
-                  \*  ("bare": created by an administrator, capacity not yet reported)
-          m,      \* [alive, srv, cap, up, apps, placed] - the running master's model
-          dirty,  \* watched paths with an undelivered change: SUBSET {"scheduled","presence"}
-          evq,    \* servers named by undelivered `servers` events
-          pub,    \* storage writes still to be issued by the current operation
-          phase,  \* "idle" | "pub" | "load" | "init" | "down"
+VARIABLES S,      \* [store, m, dirty, evq, pub, phase, err] (MasterLagOps)
+                  \*  store = [pl: [Srv -> SUBSET App], rec: [Srv -> {"no","bare","data"}],
+                  \*           pres: SUBSET Srv, sched: SUBSET App]
+                  \*           ("bare": created by an administrator, capacity not yet reported)
+                  \*  m     = [alive, srv, cap, up, apps, placed] - the running master's model
+                  \*  dirty = watched paths with an undelivered change
+                  \*  evq   = servers named by undelivered `servers` events
+                  \*  pub   = storage writes still to be issued by the current operation
+                  \*  phase = "idle" | "pub" | "load" | "init" | "down"
+                  \*  err   = a NEW master failed its own integrity check
           fresh,  \* a publication has just completed and nothing happened since
-          err,    \* the master failed its own integrity check
           n, nc
 
-vars == <<store, m, dirty, evq, pub, phase, fresh, err, n, nc>>
+vars == <<S, fresh, n, nc>>
 
-Dead == [alive |-> FALSE]
-NoPl == [a \in App |-> ""]
-
-Init ==
-  /\ store = [pl |-> [s \in Srv |-> {}], rec |-> [s \in Srv |-> "data"], pres |-> Srv, sched |-> {}]
-  /\ m = [alive |-> TRUE, srv |-> Srv, cap |-> [s \in Srv |-> Cap], up |-> Srv, apps |-> {},
-          placed |-> NoPl]
-  /\ dirty = {} /\ evq = {} /\ pub = <<>> /\ phase = "idle" /\ fresh = FALSE /\ err = FALSE
-  /\ n = 0 /\ nc = 0
-
-ServersOf(st, a) == {s \in Srv : a \in st.pl[s]}
-OnSrv(mm, s) == {a \in App : mm.placed[a] = s}
+Init == S = S0 /\ fresh = FALSE /\ n = 0 /\ nc = 0
 
 -----------------------------------------------------------------------------
-(* environment: store only *)
-(* (not while a new master starts up: C10 is about the state it was started   *)
-(* ON.  With StartupRace = TRUE the environment also acts during start-up:     *)
-(* TLC then shows in 8 steps that an administrator deleting a server between   *)
-(* the start-up publication and its integrity check makes that check fail - an *)
-(* observation about the self-check, not judged)                               *)
-Ev == /\ n < MaxEvents /\ n' = n + 1 /\ fresh' = FALSE
-      /\ (phase \in {"load", "init"} => StartupRace)
-      /\ UNCHANGED <<m, pub, phase, err, nc>>
+(* environment: store only.  Not while a new master starts up: C10 is about   *)
+(* the state it was started ON.  With StartupRace = TRUE the environment also  *)
+(* acts during start-up: TLC then shows in 8 steps that an administrator       *)
+(* deleting a server between the start-up publication and its integrity check  *)
+(* makes that check fail - an observation about the self-check, not judged.    *)
+EnvGuard == n < MaxEvents /\ (S.phase \in {"load", "init"} => StartupRace)
+EnvFrame == n' = n + 1 /\ fresh' = FALSE /\ UNCHANGED nc
 
-Schedule(a) ==
-  /\ a \notin store.sched /\ Ev
-  /\ store' = [store EXCEPT !.sched = @ \cup {a}]
-  /\ dirty' = dirty \cup {"scheduled"} /\ UNCHANGED evq
+Schedule(a) == /\ EnvGuard /\ EnvEnabled(S, "Schedule", <<a>>)
+               /\ S' = EnvDo(S, "Schedule", <<a>>) /\ EnvFrame
+Unschedule(a) == /\ EnvGuard /\ EnvEnabled(S, "Unschedule", <<a>>)
+                 /\ S' = EnvDo(S, "Unschedule", <<a>>) /\ EnvFrame
+NodeDown(s) == /\ EnvGuard /\ EnvEnabled(S, "NodeDown", <<s>>)
+               /\ S' = EnvDo(S, "NodeDown", <<s>>) /\ EnvFrame
+NodeUp(s) == /\ EnvGuard /\ EnvEnabled(S, "NodeUp", <<s>>)
+             /\ S' = EnvDo(S, "NodeUp", <<s>>) /\ EnvFrame
+DeleteServer(s) == /\ EnvGuard /\ EnvEnabled(S, "DeleteServer", <<s>>)
+                   /\ S' = EnvDo(S, "DeleteServer", <<s>>) /\ EnvFrame
+CreateServer(s) == /\ EnvGuard /\ EnvEnabled(S, "CreateServer", <<s>>)
+                   /\ S' = EnvDo(S, "CreateServer", <<s>>) /\ EnvFrame
 
-Unschedule(a) ==
-  /\ a \in store.sched /\ Ev
-  /\ store' = [store EXCEPT !.sched = @ \ {a}]
-  /\ dirty' = dirty \cup {"scheduled"} /\ UNCHANGED evq
-
-NodeDown(s) ==
-  /\ s \in store.pres /\ Ev
-  /\ store' = [store EXCEPT !.pres = @ \ {s}]
-  /\ dirty' = dirty \cup {"presence"} /\ UNCHANGED evq
-
-(* node registration: capacity record + presence node *)
-NodeUp(s) ==
-  /\ s \notin store.pres /\ store.rec[s] # "no" /\ Ev
-  /\ store' = [store EXCEPT !.pres = @ \cup {s}, !.rec[s] = "data"]
-  /\ dirty' = dirty \cup {"presence"} /\ UNCHANGED evq
-
-(* masterapi.delete_server: server record and placement node (recursively) *)
-DeleteServer(s) ==
-  /\ store.rec[s] # "no" /\ Ev
-  /\ store' = [store EXCEPT !.rec[s] = "no", !.pl[s] = {}]
-  /\ evq' = evq \cup {s} /\ UNCHANGED dirty
-
-(* masterapi.create_server: a record without capacity *)
-CreateServer(s) ==
-  /\ store.rec[s] = "no" /\ Ev
-  /\ store' = [store EXCEPT !.rec[s] = "bare"]
-  /\ evq' = evq \cup {s} /\ UNCHANGED dirty
-
------------------------------------------------------------------------------
-(* Loader.reload_server(s) on model mm and store st: [m, st] *)
-Drop(mm, s) == [mm EXCEPT !.srv = @ \ {s}, !.up = @ \ {s},
-                          !.placed = [a \in App |-> IF mm.placed[a] = s THEN "" ELSE mm.placed[a]]]
-
-CapOf(st, s) == IF st.rec[s] = "data" THEN Cap ELSE 0
-
-RECURSIVE TakeFit(_, _, _)
-TakeFit(seq, S, k) ==    \* the first k elements of seq that are in S
-  IF seq = <<>> \/ k = 0 THEN {}
-  ELSE IF Head(seq) \in S THEN {Head(seq)} \cup TakeFit(Tail(seq), S, k - 1)
-  ELSE TakeFit(Tail(seq), S, k)
-
-(* "server modified, replacing": remove, load as new, restore_placement from   *)
-(* what is stored under it (only when the model had instances on it)           *)
-Replace(mm, st, s) ==
-  LET had == OnSrv(mm, s) # {}
-      base == [mm EXCEPT !.cap[s] = CapOf(st, s),
-                         !.up = IF s \in st.pres THEN @ \cup {s} ELSE @ \ {s},
-                         !.placed = [a \in App |-> IF mm.placed[a] = s THEN "" ELSE mm.placed[a]]]
-      keepable == {a \in st.pl[s] \cap mm.apps : base.placed[a] = ""}
-      restored == TakeFit(AppSeq, keepable, CapOf(st, s))
-  IN IF ~had THEN [m |-> base, st |-> st]
-     ELSE [m |-> [base EXCEPT !.placed = [a \in App |-> IF a \in restored THEN s ELSE base.placed[a]]],
-           st |-> [st EXCEPT !.pl[s] = restored]]
-
-Reload(mm, st, s) ==
-  IF s \notin mm.srv
-  THEN IF st.rec[s] # "no"
-       THEN [m |-> [mm EXCEPT !.srv = @ \cup {s}, !.cap[s] = CapOf(st, s),
-                              !.up = IF s \in st.pres THEN @ \cup {s} ELSE @ \ {s}], st |-> st]
-       ELSE [m |-> mm, st |-> st]
-  ELSE IF st.rec[s] = "no"
-  THEN [m |-> Drop(mm, s),
-        st |-> IF "drop_no_withdraw" \in Defects THEN st
-               ELSE [st EXCEPT !.pl[s] = @ \ OnSrv(mm, s)]]
-  ELSE IF CapOf(st, s) = mm.cap[s] THEN [m |-> mm, st |-> st]
-  ELSE Replace(mm, st, s)
-
-RECURSIVE ReloadAll(_, _, _)
-ReloadAll(mm, st, ss) ==
-  IF ss = <<>> THEN [m |-> mm, st |-> st]
-  ELSE LET r == Reload(mm, st, Head(ss)) IN ReloadAll(r.m, r.st, Tail(ss))
-
-SeqOf(S) == SelectSeq(SrvSeq, LAMBDA s : s \in S)
-
-Handler == phase = "idle" /\ m.alive /\ fresh' = FALSE /\ UNCHANGED <<pub, phase, err, n, nc>>
-
-(* scheduled watch: Master.remove_app deletes the placement entry at once *)
+(* the master's handlers *)
 DeliverScheduled ==
-  /\ Handler /\ "scheduled" \in dirty
-  /\ LET gone == m.apps \ store.sched IN
-     /\ store' = [store EXCEPT !.pl = [s \in Srv |-> store.pl[s] \ {a \in gone : m.placed[a] = s}]]
-     /\ m' = [m EXCEPT !.apps = store.sched,
-                       !.placed = [a \in App |-> IF a \in gone THEN "" ELSE m.placed[a]]]
-  /\ dirty' = dirty \ {"scheduled"} /\ UNCHANGED evq
-
-(* presence watch: adjust_presence; servers that come up are reloaded *)
+  /\ CanHandle(S) /\ "scheduled" \in S.dirty
+  /\ S' = DeliverScheduledDo(S) /\ fresh' = FALSE /\ UNCHANGED <<n, nc>>
 DeliverPresence ==
-  /\ Handler /\ "presence" \in dirty
-  /\ LET wentdown == {s \in m.up : s \notin store.pres}
-         m1 == [m EXCEPT !.up = @ \ wentdown]
-         cameup == {s \in m.srv : s \notin m.up /\ s \in store.pres}
-         r == ReloadAll(m1, store, SeqOf(cameup)) IN
-     /\ m' = [r.m EXCEPT !.up = @ \cup (cameup \cap r.m.srv)]
-     /\ store' = r.st
-  /\ dirty' = dirty \ {"presence"} /\ UNCHANGED evq
-
-(* `servers` event naming s *)
+  /\ CanHandle(S) /\ "presence" \in S.dirty
+  /\ S' = DeliverPresenceDo(S) /\ fresh' = FALSE /\ UNCHANGED <<n, nc>>
 DeliverServers(s) ==
-  /\ Handler /\ s \in evq
-  /\ LET r == Reload(m, store, s) IN m' = r.m /\ store' = r.st
-  /\ evq' = evq \ {s} /\ UNCHANGED dirty
-
------------------------------------------------------------------------------
-(* a cycle on the master's view, notifications possibly pending *)
-LegalP(mm, P) ==
-  /\ \A a \in App : a \notin mm.apps => P[a] = ""
-  /\ \A a \in mm.apps : P[a] \in {""} \cup mm.up \cup ({mm.placed[a]} \cap mm.srv)
-  /\ \A s \in Srv : Cardinality({a \in App : P[a] = s}) <= (IF s \in mm.srv THEN mm.cap[s] ELSE 0)
-
-RECURSIVE Concat(_)
-Concat(ss) == IF ss = <<>> THEN <<>> ELSE Head(ss) \o Concat(Tail(ss))
-
-ReschedWrites(old, P) ==
-  Concat([j \in DOMAIN AppSeq |-> LET a == AppSeq[j] IN
-            IF old.placed[a] # "" /\ old.placed[a] # P[a] THEN <<<<"del", old.placed[a], a>>>> ELSE <<>>])
-  \o Concat([j \in DOMAIN AppSeq |-> LET a == AppSeq[j] IN
-            IF P[a] # "" /\ old.placed[a] # P[a] THEN <<<<"put", P[a], a>>>> ELSE <<>>])
+  /\ CanHandle(S) /\ s \in S.evq
+  /\ S' = DeliverServersDo(S, s) /\ fresh' = FALSE /\ UNCHANGED <<n, nc>>
 
 Cycle(P) ==
-  /\ phase = "idle" /\ m.alive /\ LegalP(m, P)
+  /\ CanHandle(S) /\ LegalP(S.m, P)
   /\ nc < MaxCycles /\ nc' = nc + 1
-  /\ pub' = ReschedWrites(m, P)
-  /\ m' = [m EXCEPT !.placed = P]
-  /\ phase' = "pub" /\ fresh' = FALSE
-  /\ UNCHANGED <<store, dirty, evq, err, n>>
-
-(* the put re-creates a missing placement node (kazoo makepath) *)
-Write(st, w) == IF w[1] = "del" THEN [st EXCEPT !.pl[w[2]] = @ \ {w[3]}]
-                ELSE [st EXCEPT !.pl[w[2]] = @ \cup {w[3]}]
+  /\ S' = CycleDo(S, P) /\ fresh' = FALSE /\ UNCHANGED n
 
 PubStep ==
-  /\ phase \in {"pub", "load", "init"} /\ pub # <<>>
-  /\ store' = Write(store, Head(pub)) /\ pub' = Tail(pub)
-  /\ UNCHANGED <<m, dirty, evq, phase, fresh, err, n, nc>>
+  /\ S.phase \in {"pub", "load", "init"} /\ S.pub # <<>>
+  /\ S' = PubStepDo(S) /\ UNCHANGED <<fresh, n, nc>>
 
-(* Loader.check_placement_integrity: walks the placement nodes in listing     *)
-(* order, repairs an instance found twice (keeps the copy the model has),     *)
-(* then cross-checks model against store                                      *)
-Integrity(st, mm) ==
-  LET dup == {a \in App : Cardinality(ServersOf(st, a)) > 1}
-      hopeless == \E a \in dup : a \notin mm.apps \/ mm.placed[a] \notin ServersOf(st, a)
-      st1 == [st EXCEPT !.pl = [s \in Srv |->
-                 {a \in st.pl[s] : ~(a \in dup /\ a \in mm.apps /\ mm.placed[a] # s)}]]
-      First(a) == SrvSeq[CHOOSE k \in DOMAIN SrvSeq :
-                     SrvSeq[k] \in ServersOf(st, a) /\ \A j \in 1..(k - 1) : SrvSeq[j] \notin ServersOf(st, a)]
-      seen(a) == IF "integrity_first_seen" \in Defects /\ a \in dup THEN First(a)
-                 ELSE IF ServersOf(st1, a) = {} THEN "" ELSE CHOOSE s \in ServersOf(st1, a) : TRUE
-      wrong == \E a \in mm.apps : mm.placed[a] # "" /\ seen(a) # mm.placed[a]
-  IN [st |-> st1, err |-> hopeless \/ wrong]
-
-(* run_loop checks the placement integrity right after every publication.  A  *)
-(* LIVE master that fails the check exits (utils.exit_on_unhandled) - a crash  *)
-(* like any other, the repairs it made before the assertion stay.  A master    *)
-(* that fails it at START-UP is what C10 excludes: err.                        *)
 Finish ==
-  /\ phase \in {"pub", "init"} /\ pub = <<>>
-  /\ LET r == Integrity(store, m) IN
-     /\ store' = r.st
-     /\ IF r.err /\ phase = "pub"
-        THEN m' = Dead /\ phase' = "down" /\ fresh' = FALSE /\ err' = err
-        ELSE m' = m /\ phase' = "idle" /\ fresh' = TRUE /\ err' = (err \/ r.err)
-  /\ UNCHANGED <<dirty, evq, pub, n, nc>>
+  /\ S.phase \in {"pub", "init"} /\ S.pub = <<>>
+  /\ S' = FinishDo(S)
+  /\ fresh' = (S'.phase = "idle") /\ UNCHANGED <<n, nc>>
 
 Crash ==
-  /\ m.alive
-  /\ m' = Dead /\ pub' = <<>> /\ phase' = "down" /\ fresh' = FALSE
-  /\ UNCHANGED <<store, dirty, evq, err, n, nc>>
-
-(* a new master: load_model reads the store as it is (nothing is pending for  *)
-(* it), restore_placements restores what fits, drops the rest                 *)
-RECURSIVE Restore(_, _, _)
-Restore(st, ss, acc) ==    \* acc = [placed, multi, writes]
-  IF ss = <<>> THEN acc
-  ELSE LET s == Head(ss)
-           stale == {a \in st.pl[s] : a \notin st.sched}
-           ok == {a \in st.pl[s] : a \in st.sched}
-           placed1 == [a \in App |-> IF a \in ok /\ acc.placed[a] = "" THEN s ELSE acc.placed[a]]
-           multi1 == [a \in App |-> IF a \in ok THEN acc.multi[a] \cup {s} ELSE acc.multi[a]]
-           w == Concat([j \in DOMAIN AppSeq |->
-                          IF AppSeq[j] \in stale THEN <<<<"del", s, AppSeq[j]>>>> ELSE <<>>])
-       IN Restore(st, Tail(ss), [placed |-> placed1, multi |-> multi1, writes |-> acc.writes \o w])
-
-LoadModel(st) ==
-  LET srv == {s \in Srv : st.rec[s] # "no"}
-      acc == Restore(st, SeqOf(srv), [placed |-> NoPl, multi |-> [a \in App |-> {}], writes |-> <<>>])
-      dup == {a \in App : Cardinality(acc.multi[a]) > 1}
-      dupw == Concat([j \in DOMAIN AppSeq |->
-                        IF AppSeq[j] \in dup
-                        THEN Concat([k \in DOMAIN SrvSeq |->
-                                       IF SrvSeq[k] \in acc.multi[AppSeq[j]]
-                                       THEN <<<<"del", SrvSeq[k], AppSeq[j]>>>> ELSE <<>>])
-                        ELSE <<>>])
-  IN [m |-> [alive |-> TRUE, srv |-> srv, cap |-> [s \in Srv |-> CapOf(st, s)],
-             up |-> srv \cap st.pres, apps |-> st.sched,
-             placed |-> [a \in App |-> IF a \in dup THEN "" ELSE acc.placed[a]]],
-      writes |-> acc.writes \o dupw]
+  /\ S.m.alive
+  /\ S' = CrashDo(S) /\ fresh' = FALSE /\ UNCHANGED <<n, nc>>
 
 Restart ==
-  /\ phase = "down"
+  /\ S.phase = "down"
   /\ nc < MaxCycles /\ nc' = nc + 1
-  /\ LET r == LoadModel(store) IN m' = r.m /\ pub' = r.writes
-  /\ dirty' = {} /\ evq' = {}
-  /\ phase' = "load" /\ fresh' = FALSE
-  /\ UNCHANGED <<store, err, n>>
-
-(* init_schedule against the store as it is when the publication starts *)
-InitWrites(st, mm, P) ==
-  LET cur(s) == st.pl[s]
-      cor(s) == {a \in App : P[a] = s}
-      dels(s) == Concat([j \in DOMAIN AppSeq |->
-                   IF AppSeq[j] \in cur(s) \ cor(s) THEN <<<<"del", s, AppSeq[j]>>>> ELSE <<>>])
-      crt(s) == Concat([j \in DOMAIN AppSeq |->
-                   IF AppSeq[j] \in cor(s) \ cur(s) THEN <<<<"put", s, AppSeq[j]>>>> ELSE <<>>])
-      known == SeqOf(mm.srv)
-      ghosts == IF "init_known_only" \in Defects THEN <<>> ELSE SeqOf(Srv \ mm.srv)
-  IN Concat([k \in DOMAIN known |-> dels(known[k])])
-     \o Concat([k \in DOMAIN ghosts |-> dels(ghosts[k])])
-     \o Concat([k \in DOMAIN known |-> crt(known[k])])
+  /\ S' = RestartDo(S) /\ fresh' = FALSE /\ UNCHANGED n
 
 InitSchedule(P) ==
-  /\ phase = "load" /\ pub = <<>> /\ LegalP(m, P)
-  /\ pub' = InitWrites(store, m, P)
-  /\ m' = [m EXCEPT !.placed = P]
-  /\ phase' = "init"
-  /\ UNCHANGED <<store, dirty, evq, fresh, err, n, nc>>
+  /\ S.phase = "load" /\ S.pub = <<>> /\ LegalP(S.m, P)
+  /\ S' = InitScheduleDo(S, P) /\ UNCHANGED <<fresh, n, nc>>
 
 Next ==
   \/ \E a \in App : Schedule(a)
@@ -313,17 +121,17 @@ Spec == Init /\ [][Next]_vars
 
 -----------------------------------------------------------------------------
 (* C10 under watch latency: in EVERY state no instance has two entries ...   *)
-InvNoDup == \A a \in App : Cardinality(ServersOf(store, a)) <= 1
+InvNoDup == \A a \in App : Cardinality(ServersOf(S.store, a)) <= 1
 (* ... and a NEW master never fails its own integrity check                  *)
-InvNoAssert == ~err
+InvNoAssert == ~S.err
 (* C09 under watch latency: once everything is delivered and a publication   *)
 (* has completed, store and model agree exactly                              *)
-Quiescent == dirty = {} /\ evq = {} /\ fresh /\ phase = "idle" /\ m.alive
+Quiescent == S.dirty = {} /\ S.evq = {} /\ fresh /\ S.phase = "idle" /\ S.m.alive
 InvSettled == Quiescent =>
-  \A s \in Srv, a \in App : (a \in store.pl[s]) <=> (m.placed[a] = s)
+  \A s \in Srv, a \in App : (a \in S.store.pl[s]) <=> (S.m.placed[a] = s)
 (* the master's view of scheduled instances / servers is the store's once    *)
 (* delivered (the handlers are complete)                                     *)
-InvView == (dirty = {} /\ evq = {} /\ m.alive /\ phase = "idle") =>
-  /\ m.apps = store.sched
-  /\ m.srv = {s \in Srv : store.rec[s] # "no"}
+InvView == (S.dirty = {} /\ S.evq = {} /\ S.m.alive /\ S.phase = "idle") =>
+  /\ S.m.apps = S.store.sched
+  /\ S.m.srv = {s \in Srv : S.store.rec[s] # "no"}
 =============================================================================
